@@ -108,6 +108,18 @@ def _bounds(e, depth=0):
     if k == z3.Z3_OP_UMINUS:
         a = _bounds(e.arg(0), depth + 1)
         return None if a is None else (-a[1], -a[0])
+    if k == z3.Z3_OP_MUL and e.num_args() == 2:
+        a, b = _bounds(e.arg(0), depth + 1), _bounds(e.arg(1), depth + 1)
+        if a is None or b is None:
+            return None
+        ps = [a[0] * b[0], a[0] * b[1], a[1] * b[0], a[1] * b[1]]
+        return builtins.min(ps), builtins.max(ps)
+    if k == z3.Z3_OP_UNINTERPRETED and e.num_args() == 0:
+        from .core import Ctx
+
+        c = Ctx.cur
+        if c is not None:
+            return c.var_bounds.get(e.decl().name())
     return None
 
 
@@ -332,13 +344,16 @@ def _kind_of_elems(o) -> str:
 
 class SArr:
     __array_priority__ = 10_000
-    __slots__ = ("o", "kind")
+    __slots__ = ("o", "kind", "width")
 
-    def __init__(self, o, kind=None):
+    def __init__(self, o, kind=None, width=None):
+        """width: (bits, signed) for integer arrays of a fixed-width dtype narrower than 64 bits (their arithmetic
+        wraps like numpy's), None for unbounded (int64 is modelled as a mathematical integer)"""
         if not (isinstance(o, _np.ndarray) and o.dtype == object):
             o = _obj(o)
         self.o = o
         self.kind = kind if kind is not None else _kind_of_elems(o)
+        self.width = width if self.kind == "i" else None
 
     # -- introspection ---------------------------------------------------------------
     @property
@@ -355,11 +370,13 @@ class SArr:
 
     @property
     def dtype(self):
+        if self.kind == "i" and self.width:
+            return _np.dtype(f"{'int' if self.width[1] else 'uint'}{self.width[0]}")
         return _np.dtype(_np_dtype_for(self.kind))
 
     @property
     def T(self):
-        return SArr(self.o.T, self.kind)
+        return SArr(self.o.T, self.kind, self.width)
 
     @property
     def flat(self):
@@ -435,24 +452,24 @@ class SArr:
         return self.o.tolist()
 
     def copy(self):
-        return SArr(self.o.copy(), self.kind)
+        return SArr(self.o.copy(), self.kind, self.width)
 
     def ravel(self):
-        return SArr(self.o.ravel(), self.kind)
+        return SArr(self.o.ravel(), self.kind, self.width)
 
     def flatten(self):
-        return SArr(self.o.flatten(), self.kind)
+        return SArr(self.o.flatten(), self.kind, self.width)
 
     def reshape(self, *shape):
         if len(shape) == 1 and isinstance(shape[0], (tuple, list)):
             shape = tuple(shape[0])
-        return SArr(self.o.reshape(*shape), self.kind)
+        return SArr(self.o.reshape(*shape), self.kind, self.width)
 
     def transpose(self, *axes):
-        return SArr(self.o.transpose(*axes), self.kind)
+        return SArr(self.o.transpose(*axes), self.kind, self.width)
 
     def squeeze(self, axis=None):
-        return SArr(self.o.squeeze(axis), self.kind)
+        return SArr(self.o.squeeze(axis), self.kind, self.width)
 
     def fill(self, v):
         self.o.fill(_py(v))
@@ -464,7 +481,7 @@ class SArr:
             return SArr(self.o.copy(), k)
         if w is None:
             return SArr(_map1(lambda x: _cast(x, k), self.o), k)
-        return SArr(_map1(lambda x: _wrap_int(_cast(x, "i"), *w), self.o), "i")
+        return SArr(_map1(lambda x: _wrap_int(_cast(x, "i"), *w), self.o), "i", w)
 
     def tobytes(self):
         c = self.concrete()
@@ -512,16 +529,17 @@ class SArr:
         return multiply(o, self)
 
     def __floordiv__(self, o):
-        return _binary(self, o, lambda a, b: a // b, lambda ka, kb: _promote(ka, kb, "i"))
+        return _binary(self, o, lambda a, b: a // b, lambda ka, kb: _promote(ka, kb, "i"), arith=True)
 
     def __mod__(self, o):
-        return _binary(self, o, lambda a, b: a % b, lambda ka, kb: _promote(ka, kb, "i"))
+        return _binary(self, o, lambda a, b: a % b, lambda ka, kb: _promote(ka, kb, "i"), arith=True)
 
     def __truediv__(self, o):
         return _binary(self, o, lambda a, b: a / b, lambda ka, kb: "f")
 
     def __neg__(self):
-        return SArr(_map1(lambda x: -x, self.o), _promote(self.kind, "i"))
+        w = self.width
+        return SArr(_map1((lambda x: _wrap_int(-x, *w)) if w else (lambda x: -x), self.o), _promote(self.kind, "i"), w)
 
     def __abs__(self):
         return absolute(self)
@@ -597,7 +615,7 @@ class SArr:
         else:
             target = globals().get(name)
         if target is None or target is func:
-            raise ShimUnsupported(f"numpy.{name} on a symbolic array is not modelled")
+            return _fallback_concrete(func, args, kwargs, name)
         return target(*args, **kwargs)
 
     def __array_ufunc__(self, ufunc, method, *inputs, **kwargs):
@@ -607,9 +625,35 @@ class SArr:
             raise ShimUnsupported(f"ufunc {ufunc.__name__}.{method} with a symbolic operand and a real output array")
         target = globals().get(ufunc.__name__)
         if target is None:
-            raise ShimUnsupported(f"ufunc numpy.{ufunc.__name__} on a symbolic array is not modelled")
+            kwargs.pop("out", None)
+            return _fallback_concrete(ufunc, inputs, kwargs, ufunc.__name__)
         kwargs.pop("out", None)
         return target(*inputs, **kwargs)
+
+
+def _fallback_concrete(func, args, kwargs, name):
+    """a numpy function the shim does not model: fork every symbolic element of its array arguments to each feasible
+    concrete value and run the real function (sound, degenerate; counted in the path's notes)"""
+    ctx = cur()
+    ctx.notes["unmodelled_numpy_calls"] = sorted(set(ctx.notes.get("unmodelled_numpy_calls", [])) | {name})
+
+    def conc(x):
+        if isinstance(x, SArr):
+            c = x.concrete()
+            if c is None:
+                c = concretize_array(x)
+                if x.kind in "bif":
+                    c = c.astype(x.dtype)
+            elif x.kind == "i" and x.width:
+                c = c.astype(x.dtype)
+            return c
+        if is_sym(x):
+            return concretize_elem(x)
+        if isinstance(x, (list, tuple)):
+            return type(x)(conc(e) for e in x)
+        return x
+
+    return func(*[conc(a) for a in args], **{k: conc(v) for k, v in kwargs.items()})
 
 
 def _map1(f, o):
@@ -625,17 +669,52 @@ def _wrap_scalar_or_arr(o, kind):
     return _py(o)
 
 
-def _binary(a, b, fn, kindf):
+def _dtype_rep(x):
+    """operand as numpy's result_type sees it: a dtype for arrays, the value itself for concrete scalars"""
+    if isinstance(x, SArr):
+        return x.dtype if x.kind in "bif" else _np.dtype(object)
+    if isinstance(x, _np.ndarray):
+        return x.dtype if x.dtype != object else _np.dtype(_np_dtype_for(_kind_of_elems(x)) if x.size else _np.int64)
+    if isinstance(x, (list, tuple, range)):
+        return _np.dtype(_np_dtype_for(_kind_of_any(x)))
+    x = _py(x)
+    t = type(x)
+    if t is SBool:
+        return False
+    if t is SInt:
+        b = _bounds(x.e)
+        if b is not None:  # value-based casting of a python scalar: the extreme it can take decides
+            return b[0] if builtins.abs(b[0]) > builtins.abs(b[1]) else b[1]
+        return 0  # assumed to fit the array operand's dtype (stated in the shim's assumptions)
+    if t is SReal:
+        return 0.0
+    return x
+
+
+def _common_width(*xs):
+    """(bits, signed) of numpy's result dtype for these operands, or None when it is 64-bit / not an integer"""
+    try:
+        dt = _np.result_type(*[_dtype_rep(x) for x in xs])
+    except Exception:
+        return None
+    return _int_width(dt) if dt.kind in "iu" else None
+
+
+def _binary(a, b, fn, kindf, arith=False, keepw=False):
     ka, kb = _kind_of_any(a), _kind_of_any(b)
     oa, ob = _obj(a), _obj(b)
     ba, bb = _np.broadcast_arrays(oa, ob)
     out = _np.empty(ba.shape, dtype=object)
-    for idx in _np.ndindex(ba.shape):
-        out[idx] = fn(_py(ba[idx]), _py(bb[idx]))
     k = kindf(ka, kb)
+    w = _common_width(a, b) if (k == "i" and (arith or keepw) and ka in "bi" and kb in "bi") else None
+    for idx in _np.ndindex(ba.shape):
+        r = fn(_py(ba[idx]), _py(bb[idx]))
+        if w and arith:
+            r = _wrap_int(_cast(r, "i"), *w)
+        out[idx] = r
     if out.ndim == 0 and not (isinstance(a, (SArr, _np.ndarray)) or isinstance(b, (SArr, _np.ndarray))):
         return out[()]
-    return SArr(out, k)
+    return SArr(out, k, w)
 
 
 # --------------------------------------------------------------------------------------
@@ -712,7 +791,7 @@ def _getitem(a: SArr, key):
     key = _norm_key(key)
     if not _key_has(key, lambda k: _is_symint(k) or _is_symarr(k)):
         r = a.o[_plain_key(key)]
-        return SArr(r, a.kind) if isinstance(r, _np.ndarray) else _py(r)
+        return SArr(r, a.kind, a.width) if isinstance(r, _np.ndarray) else _py(r)
     # symbolic boolean mask read: result shape depends on data -> concretise the mask
     if _key_has(key, lambda k: isinstance(k, SArr) and k.kind == "b" and k.has_sym()):
         key = tuple(concretize_array(k) if (isinstance(k, SArr) and k.kind == "b") else k for k in key)
@@ -756,7 +835,7 @@ def _ite_any(c, x, y):
         out = _np.empty(ox.shape, dtype=object)
         for idx in _np.ndindex(ox.shape):
             out[idx] = ite(c, ox[idx], oy[idx])
-        return SArr(out, _promote(_kind_of_any(x), _kind_of_any(y)))
+        return SArr(out, _promote(_kind_of_any(x), _kind_of_any(y)), _common_width(x, y))
     return ite(c, x, y)
 
 
@@ -777,7 +856,7 @@ def _fancy_get(a: SArr, key):
         # mixed basic/advanced with symbolic -> concretise symbolic parts
         key2 = tuple(concretize_array(k) if isinstance(k, SArr) else (int(k) if _is_symint(k) else k) for k in key)
         r = a.o[key2]
-        return SArr(r, a.kind) if isinstance(r, _np.ndarray) else _py(r)
+        return SArr(r, a.kind, a.width) if isinstance(r, _np.ndarray) else _py(r)
     idx_arrays = _np.broadcast_arrays(*[_obj(p) for p in lead])
     oshape = idx_arrays[0].shape
     rest_shape = a.o.shape[len(lead):]
@@ -791,11 +870,20 @@ def _fancy_get(a: SArr, key):
             out[pos] = sub
     if out.ndim == 0:
         return out[()]
-    return SArr(out, a.kind)
+    return SArr(out, a.kind, a.width)
 
 
 def _setitem(a: SArr, key, v):
     key = _norm_key(key)
+    if a.width and a.kind == "i":
+        # storing into a fixed-width integer array casts (wraps) the value like numpy does
+        w = a.width
+        if isinstance(v, SArr):
+            v = SArr(_map1(lambda x: _wrap_int(_cast(x, "i"), *w), v.o), "i", w)
+        elif isinstance(v, (_np.ndarray, list, tuple)):
+            v = SArr(_map1(lambda x: _wrap_int(_cast(x, "i"), *w), _obj(v)), "i", w)
+        elif _kind_of_value(_py(v)) in "bi":
+            v = _wrap_int(_cast(_py(v), "i"), *w)
     if isinstance(v, SArr):
         vo = v.o
     elif isinstance(v, (_np.ndarray, list, tuple)):
@@ -905,7 +993,7 @@ def asarray(x, dtype=None):
 
 def array(x, dtype=None, copy=True, **kw):
     if isinstance(x, SArr):
-        r = SArr(x.o.copy() if copy else x.o, x.kind)
+        r = SArr(x.o.copy() if copy else x.o, x.kind, x.width)
         return r.astype(dtype) if dtype is not None and (_kind_of_dtype(dtype) != r.kind or _int_width(dtype)) else r
     if not _contains_sym(x):
         return _np.array(_real(x), dtype=dtype, **kw)
@@ -920,7 +1008,7 @@ def _filled(shape, v, dtype):
     shape = tuple(int(s) for s in shape)
     a = _np.empty(shape, dtype=object)
     a.fill(v)
-    return SArr(a, _kind_of_dtype(dtype))
+    return SArr(a, _kind_of_dtype(dtype), _int_width(dtype) if _kind_of_dtype(dtype) == "i" else None)
 
 
 def zeros(shape, dtype=float, **kw):
@@ -950,22 +1038,25 @@ def full(shape, fill_value, dtype=None, **kw):
     a[...] = _np.broadcast_to(fv, shape)
     if k in ("b", "i", "f"):
         a = _map1(lambda x: _cast(x, k), a)
-    return SArr(a, k)
+    w = _int_width(dtype) if (dtype is not None and k == "i") else None
+    if w:
+        a = _map1(lambda x: _wrap_int(x, *w), a)
+    return SArr(a, k, w)
 
 
 def full_like(a, fill_value, dtype=None, **kw):
     shp = _shape_of(a)
     if dtype is None:
-        dtype = _np_dtype_for(_kind_of_any(a))
+        dtype = a.dtype if isinstance(a, (SArr, _np.ndarray)) and a.dtype != object else _np_dtype_for(_kind_of_any(a))
     return full(shp, fill_value, dtype=dtype)
 
 
 def zeros_like(a, dtype=None, **kw):
-    return zeros(_shape_of(a), dtype if dtype is not None else _np_dtype_for(_kind_of_any(a)))
+    return zeros(_shape_of(a), dtype if dtype is not None else (a.dtype if isinstance(a, (SArr, _np.ndarray)) and a.dtype != object else _np_dtype_for(_kind_of_any(a))))
 
 
 def ones_like(a, dtype=None, **kw):
-    return ones(_shape_of(a), dtype if dtype is not None else _np_dtype_for(_kind_of_any(a)))
+    return ones(_shape_of(a), dtype if dtype is not None else (a.dtype if isinstance(a, (SArr, _np.ndarray)) and a.dtype != object else _np_dtype_for(_kind_of_any(a))))
 
 
 def _arith_kind(ka, kb):
@@ -980,12 +1071,12 @@ def add(a, b):
     ka, kb = _kind_of_any(a), _kind_of_any(b)
     if ka == "b" and kb == "b":
         return _binary(a, b, _e_or, lambda *_: "b")
-    return _binary(a, b, f, lambda ka, kb: _promote(ka, kb, "i"))
+    return _binary(a, b, f, lambda ka, kb: _promote(ka, kb, "i"), arith=True)
 
 
 @_passthrough("subtract")
 def subtract(a, b):
-    return _binary(a, b, lambda x, y: x - y, lambda ka, kb: _promote(ka, kb, "i"))
+    return _binary(a, b, lambda x, y: x - y, lambda ka, kb: _promote(ka, kb, "i"), arith=True)
 
 
 @_passthrough("multiply")
@@ -993,7 +1084,7 @@ def multiply(a, b):
     ka, kb = _kind_of_any(a), _kind_of_any(b)
     if ka == "b" and kb == "b":
         return _binary(a, b, _e_and, lambda *_: "b")
-    return _binary(a, b, lambda x, y: x * y, lambda ka, kb: _promote(ka, kb, "i"))
+    return _binary(a, b, lambda x, y: x * y, lambda ka, kb: _promote(ka, kb, "i"), arith=True)
 
 
 @_passthrough("equal")
@@ -1067,8 +1158,9 @@ def invert(a):
 @_passthrough("absolute")
 def absolute(a):
     if isinstance(a, (SArr, _np.ndarray, list, tuple)):
-        return SArr(_map1(lambda x: builtins.abs(_cast(x, "i") if _kind_of_value(x) == "b" else x), _obj(a)),
-                    _promote(_kind_of_any(a), "i"))
+        w = _common_width(a) if _kind_of_any(a) == "i" else None
+        f = (lambda x: _wrap_int(builtins.abs(x), *w)) if w else (lambda x: builtins.abs(_cast(x, "i") if _kind_of_value(x) == "b" else x))
+        return SArr(_map1(f, _obj(a)), _promote(_kind_of_any(a), "i"), w)
     return builtins.abs(a)
 
 
@@ -1082,15 +1174,15 @@ def negative(a):
 
 @_passthrough("maximum")
 def maximum(a, b):
-    return _binary(a, b, _e_max, lambda ka, kb: _promote(ka, kb))
+    return _binary(a, b, _e_max, lambda ka, kb: _promote(ka, kb), keepw=True)
 
 
 @_passthrough("minimum")
 def minimum(a, b):
-    return _binary(a, b, _e_min, lambda ka, kb: _promote(ka, kb))
+    return _binary(a, b, _e_min, lambda ka, kb: _promote(ka, kb), keepw=True)
 
 
-def _reduce(a, axis, f2, init, kind_out, keepdims=False):
+def _reduce(a, axis, f2, init, kind_out, keepdims=False, width=None):
     o = _obj(a)
     if axis is None:
         acc = init
@@ -1112,7 +1204,7 @@ def _reduce(a, axis, f2, init, kind_out, keepdims=False):
         out[idx] = acc
     if out.ndim == 0:
         return out[()]
-    return SArr(out, kind_out)
+    return SArr(out, kind_out, width)
 
 
 @_passthrough("sum")
@@ -1139,7 +1231,7 @@ def any(a, axis=None, **kw):
 
 @_passthrough("amax")
 def amax(a, axis=None, **kw):
-    return _reduce(a, axis, _e_max, None, _kind_of_any(a))
+    return _reduce(a, axis, _e_max, None, _kind_of_any(a), width=_common_width(a) if _kind_of_any(a) == "i" else None)
 
 
 max = amax
@@ -1147,7 +1239,7 @@ max = amax
 
 @_passthrough("amin")
 def amin(a, axis=None, **kw):
-    return _reduce(a, axis, _e_min, None, _kind_of_any(a))
+    return _reduce(a, axis, _e_min, None, _kind_of_any(a), width=_common_width(a) if _kind_of_any(a) == "i" else None)
 
 
 min = amin
@@ -1183,6 +1275,13 @@ def argmax(a, axis=None, **kw):
     return _argmax1(list(o.flat))
 
 
+@_passthrough("argmin")
+def argmin(a, axis=None, **kw):
+    o = _obj(a)
+    neg = _map1(lambda x: -(_cast(x, "i") if _kind_of_value(x) == "b" else x), o)  # unbounded negation: no wrap
+    return argmax(SArr(neg, _promote(_kind_of_any(a), "i")), axis=axis)
+
+
 def _argmax1(vec):
     """index of first maximum"""
     vec = [_cast(_py(v), "i") if _kind_of_value(_py(v)) == "b" else _py(v) for v in vec]
@@ -1212,7 +1311,8 @@ def where(cond, x=None, y=None):
             out[idx] = ite(zb(c), ox[idx], oy[idx])
         else:
             out[idx] = _py(ox[idx] if c else oy[idx])
-    return SArr(out, _promote(_kind_of_any(x), _kind_of_any(y)))
+    k = _promote(_kind_of_any(x), _kind_of_any(y))
+    return SArr(out, k, _common_width(x, y) if k == "i" else None)
 
 
 @_passthrough("argwhere")
@@ -1233,13 +1333,16 @@ def _struct(name):
         if not _anysym(*args) and not _anysym(*kw.values()):
             return realf(*[_real(a) for a in args], **{k: _real(v) for k, v in kw.items()})
         kinds = []
+        arrs = []
 
         def conv(x):
             if isinstance(x, SArr):
                 kinds.append(x.kind)
+                arrs.append(x)
                 return x.o
             if isinstance(x, _np.ndarray):
                 kinds.append(_kind_of_any(x))
+                arrs.append(x)
                 return x.astype(object)
             if isinstance(x, (list, tuple)) and builtins.any(isinstance(e, (SArr, _np.ndarray, list, tuple)) or is_sym(e) for e in x):
                 return type(x)(conv(e) for e in x)
@@ -1250,12 +1353,20 @@ def _struct(name):
                 return o
             return x
 
+        # only the data operands (first positional argument, plus `values` of append/insert) decide the dtype
+        data_args = list(args[:1]) + ([args[1]] if name in ("append",) and len(args) > 1 else []) + ([args[2]] if name == "insert" and len(args) > 2 else [])
         r = realf(*[conv(a) for a in args], **{k: conv(v) for k, v in kw.items()})
         kind = _promote(*kinds) if kinds else "O"
+        width = None
+        if kind == "i":
+            flat = []
+            for d in data_args:
+                flat.extend(d if isinstance(d, (list, tuple)) and builtins.any(isinstance(e, (SArr, _np.ndarray)) for e in d) else [d])
+            width = _common_width(*flat) if flat else None
         if isinstance(r, _np.ndarray):
-            return SArr(r if r.dtype == object else r.astype(object), kind)
+            return SArr(r if r.dtype == object else r.astype(object), kind, width)
         if isinstance(r, (list, tuple)):
-            return type(r)(SArr(e if e.dtype == object else e.astype(object), kind) if isinstance(e, _np.ndarray) else e for e in r)
+            return type(r)(SArr(e if e.dtype == object else e.astype(object), kind, width) if isinstance(e, _np.ndarray) else e for e in r)
         return r
 
     g.__name__ = name
@@ -1311,7 +1422,7 @@ def pad(a, pad_width, mode="constant", constant_values=0, **kw):
     out.fill(_cast(cv, k) if k in ("b", "i", "f") else cv)
     sl = tuple(slice(int(pw[i][0]), int(pw[i][0]) + o.shape[i]) for i in range(o.ndim))
     out[sl] = o
-    return SArr(out, k)
+    return SArr(out, k, _common_width(a) if k == "i" else None)
 
 
 @_passthrough("array_equal")
@@ -1342,7 +1453,7 @@ def sort(a, axis=-1, **kw):
                 vec[j], vec[j + 1] = _e_min(x, y), _e_max(x, y)
         for i in range(n):
             o[idx[:axis] + (i,) + idx[axis:]] = vec[i]
-    return SArr(o, _kind_of_any(a))
+    return SArr(o, _kind_of_any(a), _common_width(a) if _kind_of_any(a) == "i" else None)
 
 
 @_passthrough("cross")
